@@ -1,25 +1,28 @@
-"""Registry of components (model + harness command) and properties."""
+"""Registry: merged from checks/reg/*.py (one file per component group so that groups can be developed
+independently). Each file may define COMPONENTS, PROPERTIES and META dictionaries."""
+import importlib
+import json
+import os
+import pkgutil
 
-COMPONENTS = {
-    "vv": {
-        "coq_run_module": "Cluster.VVRun",
-        "accessors": {"internal/cluster/xv_acc_verif.go": "acc/cluster/xv_acc_verif.go"},
-        "what": "cluster.VersionVector: Compare/Merge/Increment/Compact/PruneWithMax/Get/Write/Read vs Cluster/VV.v",
-    },
-}
+COMPONENTS = {}
+PROPERTIES = {}
+META = {}
 
-PROPERTIES = {
-    "C16": {
-        "components": ["vv"],
-        "rule": ("exhaustive: all 64 vectors over nodes {a,b,c} with entries {absent,0,1,2} - every unary op and every ordered pair "
-                 "(Compare, Merge) is compared with the model, triples are checked for the algebraic laws on the implementation; "
-                 "random: names of length 0..259 (invalid ones included), counters from {0,1,2,3,max-1,max,max+1,2^64-1,random}; "
-                 "truncated/corrupted/garbage encodings through the reader. non-trivial = at least one operand non-empty "
-                 "(or an error outcome); distinct = distinct input terms"),
-        "modelled_not_verified": [
-            "Go map[string]uint64 = finite map (gmap); map iteration order is irrelevant to every modelled result",
-            "'operations never modify their operands' is vacuous in the functional model: decided on the implementation only (operand snapshots around every call)",
-            "AtomicVersionVector (atomic.Value wrapper) is not modelled",
-        ],
-    },
-}
+_here = os.path.join(os.path.dirname(os.path.abspath(__file__)), "reg")
+for _m in sorted(pkgutil.iter_modules([_here]), key=lambda m: m.name):
+    if _m.name.startswith("_"):
+        continue
+    mod = importlib.import_module("checks.reg." + _m.name)
+    COMPONENTS.update(getattr(mod, "COMPONENTS", {}))
+    for k, v in getattr(mod, "PROPERTIES", {}).items():
+        PROPERTIES[k] = v
+    META.update(getattr(mod, "META", {}))
+
+ALL_IDS = [json.loads(l)["id"] for l in open(os.path.join(os.path.dirname(os.path.abspath(__file__)), "..", "properties.jsonl"))]
+NOT_APPLICABLE = [
+    {"property_id": p, "reason": "machinery under construction in this session: not yet claimed (the technique applies; see DESIGN.md section 4 %s)" % p}
+    for p in ALL_IDS if p not in PROPERTIES
+]
+NOTES = ("Every claimed property is decided by theorems in coq/Properties/<id>.v (statements only, each closed by `exact`, each followed by "
+         "Print Assumptions) about models in coq/, tied to /repo's current working tree by bin/check's correspondence run. See DESIGN.md.")
